@@ -23,12 +23,15 @@
       C02_move_construction_keeps_coherence, C02_network_with_moves_consistent. Move ASSIGNMENT over a destination that no live
       binding reads (whatever it holds: observers, a binding of its own) likewise: C02_move_assignment_keeps_coherence; assigning
       over a property that IS read leaves readers whose inputs no longer all exist (PropertyDestroyedError, C10/C11).
+   6. MIXED worlds (coq/PropMixed.v): the histories may also create evaluators, bind fresh properties THROUGH an evaluator and call
+      evaluateAll - an evaluator-driven property is, for the immediate bindings that read it, an input that changes when its
+      evaluator is asked: C02_mixed_worlds_consistent.
    PARTIAL: observers that write are covered by
    PropCheck.check_c02 on every world reached by the generated histories and by correspondence, not by the refinement. *)
 From Coq Require Import List ZArith.
 Import ListNotations.
 From KDB Require Import PropAbs PropAbsProofs.
-From KDB Require Util PropDefs PropFlags PropLink PropCheck PropSim PropGrow PropGrowMore PropMove.
+From KDB Require Util PropDefs PropFlags PropLink PropCheck PropSim PropGrow PropGrowMore PropMove PropMixed.
 
 (* Inv s [] says: every node of every binding is clean, every cached result is the denotation of its subtree, every
    bound property equals the denotation of its expression, every leaf is subscribed to its input. *)
@@ -206,3 +209,27 @@ Example C02_move_assignment_example :
   nth_error (PropDefs.w_trace (PropDefs.run fn true 8 ops)) 3 = Some (PropDefs.EvVal (Some 40%Z)) /\
   PropGrowMore.no_reader_b (PropDefs.run fn true 8 (firstn 6 ops)) 0 = false.
 Proof. vm_compute. repeat split; reflexivity. Qed.
+
+(* histories of grow_op4 = grow_op3 + evaluator objects + fresh properties bound through an evaluator + evaluateAll: every
+   IMMEDIATELY bound property equals its expression over the current values (those of evaluator-driven properties as they stand) *)
+Theorem C02_mixed_worlds_consistent :
+  forall fn rtl fuel ops q x pr z,
+    PropMixed.grow4_run_ok fn rtl fuel PropDefs.world0 ops ->
+    PropSim.imm_of (PropDefs.run fn rtl fuel ops) q = Some x -> Util.lookup (PropDefs.w_props (PropDefs.run fn rtl fuel ops)) q = Some pr ->
+    PropCheck.den_node fn (PropDefs.values (PropDefs.run fn rtl fuel ops)) (PropDefs.b_root x) = Some z -> PropDefs.pr_value pr = z.
+Proof. exact PropMixed.grow4_reachable_consistent. Qed.
+Print Assumptions C02_mixed_worlds_consistent.
+
+(* non-vacuity: p1 = f1(p0) through an evaluator, p2 = f2(p1) immediately: after p0 := 10 nothing moves (p2 = 2 + (1 + 1) = 4);
+   evaluateAll updates p1 to 11 and with it, immediately, p2 to 13 *)
+Example C02_mixed_example :
+  let fn := fun (f : nat) (l : list Z) => Some (fold_right Z.add (Z.of_nat f) l) in
+  let ops := [PropDefs.PNew 0 1%Z; PropDefs.BevNew 0;
+              PropDefs.PBind 1 (PropDefs.EOp1 1 (PropDefs.EProp 0)) (PropDefs.MEvaluator 0);
+              PropDefs.PBind 2 (PropDefs.EOp1 2 (PropDefs.EProp 1)) PropDefs.MImmediate;
+              PropDefs.PSet 0 10%Z PropDefs.WSet; PropDefs.PGet 2; PropDefs.BevEvalAll 0; PropDefs.PGet 2] in
+  PropMixed.grow4_run_ok fn true 8 PropDefs.world0 ops /\
+  map (fun e => match e with PropDefs.EvVal v => v | _ => None end)
+      (filter (fun e => match e with PropDefs.EvVal _ => true | _ => false end) (PropDefs.w_trace (PropDefs.run fn true 8 ops)))
+  = [Some 13%Z; Some 4%Z].
+Proof. split; [vm_compute; repeat split; reflexivity|vm_compute; reflexivity]. Qed.
